@@ -157,10 +157,111 @@ def handleMap (exact : Bool) (args : List String) : Verdict :=
   | sym :: ty :: rest => (parseMap exact sym ty rest).getD (bad "map fields")
   | _ => bad "map arity"
 
+/-! ## executable leg: a complete csg_map run (every frame, every coarse-grained bead) -/
+
+structure BeadDef where
+  idx : List Nat
+  ws : List Rat
+  ds : Option (List Rat)
+
+def takeNats : Nat → List String → Option (List Nat × List String)
+  | 0, l => some ([], l)
+  | k + 1, a :: rest => do
+    let n ← a.toNat?
+    let (ns, r) ← takeNats k rest
+    pure (n :: ns, r)
+  | _, _ => none
+
+def takeBeadDefs : Nat → List String → Option (List BeadDef × List String)
+  | 0, l => some ([], l)
+  | k + 1, ns :: rest => do
+    let n ← ns.toNat?
+    let (idx, r1) ← takeNats n rest
+    let (ws, r2) ← takeRats n r1
+    let nd ← r2.head? >>= String.toInt?
+    let (ds, r3) ← takeRats nd.toNat r2.tail
+    let (more, r) ← takeBeadDefs k r3
+    pure ({ idx := idx, ws := ws, ds := if nd < 0 then none else some ds } :: more, r)
+  | _, _ => none
+
+def takeFramesIn : Nat → List String → Option (List (Box × List Parent) × List String)
+  | 0, l => some ([], l)
+  | k + 1, l => do
+    let (a, r1) ← takeV3 l
+    let (b, r2) ← takeV3 r1
+    let (c, r3) ← takeV3 r2
+    let n ← r3.head? >>= String.toNat?
+    let (atoms, r4) ← takeParents n r3.tail
+    let (more, r) ← takeFramesIn k r4
+    pure ((⟨a, b, c⟩, atoms) :: more, r)
+
+def takeFramesOut : Nat → List String → Option (List (List Parent) × List String)
+  | 0, l => some ([], l)
+  | k + 1, l => do
+    let n ← l.head? >>= String.toNat?
+    let (beads, r1) ← takeParents n l.tail
+    let (more, r) ← takeFramesOut k r1
+    pure (beads :: more, r)
+
+def mapFrame (defs : List BeadDef) (fr : Box × List Parent) : List (Except Err CGBead × Bool) :=
+  let bt := autoDetect fr.1
+  defs.map fun d =>
+    let parents := d.idx.filterMap fun i => fr.2[i]?
+    let r := match initWeights d.idx.length d.ws d.ds with
+      | .error e => .error e
+      | .ok w => apply bt fr.1 parents w
+    let r0 : V3 := (parents.head?.bind (·.pos)).getD V3.zero
+    let lim := minHeightSq fr.1 / 4
+    let near := bt != BoxType.open_ && absRat (maxSqOf bt fr.1 parents r0 - lim) ≤ (1 / 1000000000) * (1 + lim)
+    (r, near)
+
+def handleRun (args : List String) : Verdict :=
+  (do
+    match args with
+    | _sid :: fin :: fout :: vel :: frc :: rest =>
+      let (tols, r1) ← takeRats 3 rest
+      let nb ← r1.head? >>= String.toNat?
+      let (defs, r2) ← takeBeadDefs nb r1.tail
+      let nf ← r2.head? >>= String.toNat?
+      let (frames, r3) ← takeFramesIn nf r2.tail
+      if r3.head? != some "|" then none else
+      let tolP := tols.getD 0 0; let tolV := tols.getD 1 0; let tolF := tols.getD 2 0
+      let model := frames.map (mapFrame defs)
+      let near := model.any fun fr => fr.any (·.2)
+      let modelErr := model.any fun fr => fr.any fun (r, _) => match r with | .error _ => true | .ok _ => false
+      let modelHalf := model.any fun fr => fr.any fun (r, _) => match r with | .error Err.halfBox => true | _ => false
+      let tag := s!"erun:{fin}->{fout}:vel{vel}:force{frc}:{if modelErr then "rejected" else "mapped"}{if defs.any (·.ds.isSome) then ":d" else ""}{if defs.any (fun d => d.ws.any (· == 0)) then ":zero-weight" else ""}"
+      if near then some ({ agree := true, propOk := true, msg := "", tag := "erun:near-limit" } : Verdict) else
+      match r3.tail with
+      | "ERR" :: kind :: _ =>
+        let ok := modelErr && (kind == "halfbox") == modelHalf
+        some ({ agree := ok, propOk := ok, msg := s!"csg_map failed ({kind}) but the model {if modelErr then "fails differently" else "maps every bead: nothing lies beyond half the shortest box height"}", tag := tag } : Verdict)
+      | "OK" :: nfo :: r4 =>
+        let nfOut ← nfo.toNat?
+        let (outs, _) ← takeFramesOut nfOut r4
+        if modelErr then some ({ agree := false, propOk := false, msg := "csg_map mapped a frame in which a parent lies beyond half the shortest box height from the first parent (EMAP-NOT-REJECTED)", tag := tag } : Verdict) else
+        if nfOut != nf then some ({ agree := false, propOk := false, msg := s!"csg_map wrote {nfOut} frames for {nf} input frames (EMAP-FRAMES)", tag := tag } : Verdict) else
+        let bad : List String := (model.zip outs).zipIdx.filterMap fun (((mf : List (Except Err CGBead × Bool)), (of : List Parent)), (fi : Nat)) =>
+          if mf.length != of.length then some s!"frame {fi}: {of.length} beads written, {mf.length} defined" else
+          ((mf.zip of).zipIdx.filterMap fun ((((m : Except Err CGBead), (_ : Bool)), (o : Parent)), (bi : Nat)) =>
+            match m with
+            | .error _ => none
+            | .ok b =>
+              let posOk := optClose b.pos o.pos tolP
+              let velOk := if vel == "1" then optClose b.vel o.vel tolV else o.vel.isNone
+              let frcOk := if frc == "1" && fout == "dump" then optClose b.frc o.frc (tolF * (1 + (match b.frc with | some f => absRat f.x + absRat f.y + absRat f.z | none => 0) / 1000)) else true
+              if posOk && velOk && frcOk then none else some s!"frame {fi} bead {bi}: position={posOk} velocity={velOk} force={frcOk}").head?
+        match bad.head? with
+        | some m => some ({ agree := false, propOk := false, msg := "EMAP-VALUE " ++ m, tag := tag } : Verdict)
+        | none => some ({ agree := true, propOk := true, msg := "", tag := tag } : Verdict)
+      | _ => none
+    | _ => none).getD (bad "erun fields")
+
 def handle (args : List String) : Verdict :=
   match args with
   | "map" :: r => handleMap true r
   | "gmap" :: r => handleMap false r
+  | "erun" :: r => handleRun r
   | _ => bad "unknown op"
 
 end Driver.C01
